@@ -1,6 +1,7 @@
 //! vcheck: property-based testing and fuzzing machinery for RustyBait (Daniel729/chess).
 pub mod capture;
 pub mod eng;
+pub mod fuzz;
 pub mod ev;
 pub mod gen;
 pub mod refchess;
